@@ -240,12 +240,10 @@ class InlineTranslator:
 
         ### check if tuple set semantic does not allow for unique identification
         replace_terms = [stm.weight, stm.priority] + list(stm.terms)
-        if any(
-            map(
-                lambda x: potentially_unifying_sequence(x, replace_terms),
-                [t for t in self.minimize_tuples if t != replace_terms],
-            )
-        ):
+        other_tuples = list(self.minimize_tuples)
+        if replace_terms in other_tuples:
+            other_tuples.remove(replace_terms)  # only the tuple of this statement, another one can look the same
+        if any(map(lambda x: potentially_unifying_sequence(x, replace_terms), other_tuples)):
             log.info(f"Cannot inline agregate into {str(stm)} as the tuple is not unique.")
             return [stm]
 
@@ -275,7 +273,7 @@ class InlineTranslator:
             new_body = rbody + list(elem.condition)
             new_minimizes.append(stm.update(body=new_body, terms=new_terms, weight=new_weight))
         # later replacements have to stay distinct from the tuples created here
-        self.minimize_tuples = [t for t in self.minimize_tuples if t != replace_terms]
+        self.minimize_tuples = other_tuples
         self.minimize_tuples.extend([m.weight, m.priority] + list(m.terms) for m in new_minimizes)
         return new_minimizes
 
